@@ -463,9 +463,8 @@ type e2ePkg struct {
 func (p *e2ePkg) source() string {
 	var b strings.Builder
 	b.WriteString("package p\n\ntype N int\n\ntype F float64\n\n")
-	for _, r := range p.reserved {
-		// a user function with a derive-like name that the user calls: its name is reserved
-		fmt.Fprintf(&b, "func %s(a, b int) int { return a + b }\n\n", r)
+	if !p.split() {
+		b.WriteString(p.reservedDecls())
 	}
 	b.WriteString("func use(")
 	for i := 0; i < p.ntypes; i++ {
@@ -478,11 +477,35 @@ func (p *e2ePkg) source() string {
 	for _, c := range p.calls {
 		fmt.Fprintf(&b, "\t_ = %s(x%d, y%d)\n", c.Name, c.T, c.T)
 	}
-	for _, r := range p.reserved {
-		fmt.Fprintf(&b, "\t_ = %s(1, 2)\n", r)
+	if !p.split() {
+		b.WriteString(p.reservedCalls())
 	}
 	b.WriteString("}\n")
 	return b.String()
+}
+
+// every second package keeps the user's derive-like functions and their calls in a later file (z.go)
+func (p *e2ePkg) split() bool { return p.id%2 == 1 && len(p.reserved) > 0 }
+
+func (p *e2ePkg) reservedDecls() string {
+	var b strings.Builder
+	for _, r := range p.reserved {
+		// a user function with a derive-like name that the user calls: its name is reserved
+		fmt.Fprintf(&b, "func %s(a, b int) int { return a + b }\n\n", r)
+	}
+	return b.String()
+}
+
+func (p *e2ePkg) reservedCalls() string {
+	var b strings.Builder
+	for _, r := range p.reserved {
+		fmt.Fprintf(&b, "\t_ = %s(1, 2)\n", r)
+	}
+	return b.String()
+}
+
+func (p *e2ePkg) sourceZ() string {
+	return "package p\n\n" + p.reservedDecls() + "func useZ() {\n" + p.reservedCalls() + "}\n"
 }
 
 func (p *e2ePkg) ctxSexp() string {
@@ -633,12 +656,22 @@ func runE2E(cfg hx.Config, meta *hx.Meta) error {
 			k = 2 + r.Intn(4)
 		}
 		p := &e2ePkg{ntypes: 3, class: fmt.Sprintf("small/k=%d", k)}
-		if r.Intn(3) == 0 {
+		firstCand := false
+		switch r.Intn(3) {
+		case 0:
 			p.reserved = []string{"deriveEqual_i", "deriveEqual_1", "deriveCompare_i", "deriveCompare_N2"}
+		case 1:
+			// the user's functions sit on the first fresh-name candidate; no derive call is spelled that way
+			p.reserved = []string{"deriveCompare_", "deriveEqual_"}
+			firstCand = true
 		}
 		for j := 0; j < k; j++ {
 			pl := r.Intn(2)
-			p.calls = append(p.calls, Call{pl, hx.Pick(r, names(pl)), r.Intn(3)})
+			ns := names(pl)
+			if firstCand {
+				ns = []string{ns[0], ns[2]}
+			}
+			p.calls = append(p.calls, Call{pl, hx.Pick(r, ns), r.Intn(3)})
 		}
 		pkgs = append(pkgs, p)
 	}
@@ -748,6 +781,14 @@ func e2eRun(cfg hx.Config, meta *hx.Meta, p *e2ePkg, src, dir string, a, d, vet 
 	if err := os.WriteFile(filepath.Join(dir, "a.go"), []byte(src), 0o644); err != nil {
 		return "(harness-error)", 0
 	}
+	userFiles := []string{"a.go"}
+	os.Remove(filepath.Join(dir, "z.go"))
+	if p.split() {
+		if err := os.WriteFile(filepath.Join(dir, "z.go"), []byte(p.sourceZ()), 0o644); err != nil {
+			return "(harness-error)", 0
+		}
+		userFiles = append(userFiles, "z.go")
+	}
 	var args []string
 	if a {
 		args = append(args, "-autoname")
@@ -759,6 +800,9 @@ func e2eRun(cfg hx.Config, meta *hx.Meta, p *e2ePkg, src, dir string, a, d, vet 
 	cmd := "goderive " + strings.Join(args, " ")
 	g := hx.Goderive(cfg.Goderive, dir, args...)
 	files := map[string]string{"go.mod": "module p\n\ngo 1.24\n", "a.go": src}
+	if p.split() {
+		files["z.go"] = p.sourceZ()
+	}
 	direct := func(class, what, out string) {
 		f := map[string]string{}
 		for k, v := range files {
@@ -819,7 +863,7 @@ func e2eRun(cfg hx.Config, meta *hx.Meta, p *e2ePkg, src, dir string, a, d, vet 
 	}
 	// the package must type-check, and every call site must invoke a function whose parameters
 	// are exactly its argument types
-	info, afs, _, err := checkTypes(dir, []string{"a.go", "derived.gen.go"})
+	info, afs, _, err := checkTypes(dir, append([]string{"a.go", "derived.gen.go"}, userFiles[1:]...))
 	if err != nil {
 		direct("c11-typecheck", "goderive exit 0 but the package does not type-check", err.Error())
 		return "(typecheck-failed)", 1
